@@ -414,36 +414,60 @@ pub fn run_property(prop: &dyn Property, opts: &RunOpts, golden: &[Vec<u16>]) ->
         let stage = prop.stage();
         let hang_secs = opts.hang_secs.max(prop.hang_secs());
         scope.spawn(move || {
+            let mut stalls = 0u32;
             while !w2.stop.load(Ordering::SeqCst) {
                 std::thread::sleep(Duration::from_millis(250));
                 for slot in &w2.slots {
-                    let g = slot.lock().unwrap();
-                    if let Some((t0, tape)) = &*g {
-                        if t0.elapsed() > Duration::from_secs(hang_secs) {
-                            let dir = verif_root().join("replays");
-                            let _ = std::fs::create_dir_all(&dir);
-                            let path = dir.join(format!("{id}-hang-{:016x}.json", hash_of(tape)));
-                            let rec = json!({"property": id, "stage": stage, "signature": "hang", "tape": tape, "profile": profile_name()});
-                            let _ = std::fs::write(&path, serde_json::to_string_pretty(&rec).unwrap());
-                            println!("HANG property={id} stage={stage} replay={} (case exceeded {hang_secs}s)", path.display());
-                            // confirm in a fresh process with a generous limit; only a confirmed
-                            // repeat counts, and only for properties that promise termination
-                            let me = std::env::current_exe().expect("current_exe");
-                            let st = std::process::Command::new("timeout")
-                                .args(["-k", "5", &(3 * hang_secs).max(180).to_string()])
-                                .arg(&me)
-                                .args(["replay", path.to_str().unwrap()])
-                                .stdout(std::process::Stdio::null())
-                                .stderr(std::process::Stdio::null())
-                                .status();
-                            let confirmed = matches!(st.as_ref().map(|s| s.code()), Ok(Some(124)) | Ok(Some(137)));
-                            if confirmed && matches!(id, "C04" | "C10" | "C13") {
-                                println!("--- the case does not terminate within three times the hang threshold when replayed alone (typical case: < 1 ms)");
-                                println!("VIOLATION property={id} replay={}", path.display());
-                                std::process::exit(1);
-                            }
-                            println!("INCONCLUSIVE property={id}: a case exceeded the watchdog (confirmed alone: {confirmed})");
-                            std::process::exit(2);
+                    // (the slot is not kept locked while the case is re-run below: the worker
+                    // must be able to finish and clear it)
+                    let overdue: Option<Vec<u16>> = {
+                        let g = slot.lock().unwrap();
+                        match &*g {
+                            Some((t0, tape)) if t0.elapsed() > Duration::from_secs(hang_secs) => Some(tape.clone()),
+                            _ => None,
+                        }
+                    };
+                    let Some(tape) = overdue else { continue };
+                    let dir = verif_root().join("replays");
+                    let _ = std::fs::create_dir_all(&dir);
+                    let path = dir.join(format!("{id}-hang-{:016x}.json", hash_of(&tape)));
+                    let rec = json!({"property": id, "stage": stage, "signature": "hang", "tape": tape, "profile": profile_name()});
+                    let _ = std::fs::write(&path, serde_json::to_string_pretty(&rec).unwrap());
+                    // confirm in a fresh process with a generous limit; only a confirmed
+                    // repeat counts, and only for properties that promise termination
+                    let me = std::env::current_exe().expect("current_exe");
+                    let st = std::process::Command::new("timeout")
+                        .args(["-k", "5", &(3 * hang_secs).max(180).to_string()])
+                        .arg(&me)
+                        .args(["replay", path.to_str().unwrap()])
+                        .stdout(std::process::Stdio::null())
+                        .stderr(std::process::Stdio::null())
+                        .status();
+                    let confirmed = matches!(st.as_ref().map(|s| s.code()), Ok(Some(124)) | Ok(Some(137)));
+                    if confirmed {
+                        println!("HANG property={id} stage={stage} replay={} (case exceeded {hang_secs}s, also when replayed alone)", path.display());
+                        if matches!(id, "C04" | "C10" | "C13") {
+                            println!("--- the case does not terminate within three times the hang threshold when replayed alone (typical case: < 1 ms)");
+                            println!("VIOLATION property={id} replay={}", path.display());
+                            std::process::exit(1);
+                        }
+                        println!("INCONCLUSIVE property={id}: a case exceeded the watchdog (confirmed alone: true)");
+                        std::process::exit(2);
+                    }
+                    // Replayed alone the case finishes: the machine stalled (overload, memory
+                    // pressure), not the case. Give it more time; only repeated stalls end the
+                    // run, as inconclusive.
+                    let _ = std::fs::remove_file(&path);
+                    stalls += 1;
+                    eprintln!("note: a case of {id}/{stage} took more than {hang_secs}s here but finishes at once when replayed alone (stall #{stalls}); waiting on");
+                    if stalls > 8 {
+                        println!("INCONCLUSIVE property={id}: cases keep exceeding the watchdog on this machine although they finish at once when replayed alone");
+                        std::process::exit(2);
+                    }
+                    let mut g = slot.lock().unwrap();
+                    if let Some((t0, cur)) = g.as_mut() {
+                        if *cur == tape {
+                            *t0 = Instant::now();
                         }
                     }
                 }
